@@ -87,6 +87,18 @@ func specs() []*Spec {
 			Rule:  "E1 enumeration on both limb layouts (+ GOARCH=386): Expand on 64-byte strings k*L+delta for k in {0,1,2,2^j,2^j+-1 (j<=259), floor(2^e/L)+{-2..1} for e in {512,264,256,253,252}} x delta in {0,1,2,L-2,L-1}, 2^j+-1 boundaries, all 3^8 word-class strings; 32-byte strings kL+delta (k<=16), 2^j, 2^j-1, word classes around the words of L; 16-byte strings and other lengths (no reduction below 32 bytes); ExpandRaw on the nibble alphabet; Add and Mul on every ordered pair of the scalar alphabet A_s (0,1,2,L-1,L-2,(L+-1)/2,2^j,2^j-1,limb-class values) with canonical-limb postcondition and the callers' aliasing forms; ContractWindow4 on every nibble-pattern scalar below 2^255 (raw, clamped, reduced): sum d_i 16^i == s, d_i in [-8,8], d_63 in [0,8]; ContractSlidingWindow(5,7) on d*2^i (d odd < 128), runs of ones at offsets 0/1/124/251, periodic patterns, A_s: sum d_i 2^i == s, digits zero or odd within +-(2^(w-1)-1). Oracle: math/big.",
 			Assume: []string{"math/big of the Go toolchain"},
 		},
+		{
+			ID:    "C10",
+			Units: []Unit{{Pkg: "internal/ge25519", Job: "C10", Quick: []string{"default", "force32bit"}, Thorough: []string{"default", "force32bit", "386", "noasm+appengine"}}},
+			Rule:  "E1 enumeration: every y in [0,2^13) (thorough 2^16) x sign bit; the 2^9 (2^12) largest 255-bit y x sign (all 19 y >= p included); 2^k, 2^k+-1 for k < 255 x sign; public keys of 64 seeds. For each string: decodability == Euler criterion of the model, Pack(UnpackVartime(s)) == canonical encoding of the model's point, UnpackNegativeVartime gives the negation, Z = 1 and T = XY, decode-encode-decode is stable; both square-root branches (candidate root / root times sqrt(-1)), x = 0 and y >= p classes must be non-empty. Pack of non-normalised representations: 8 torsion + 26 (thorough 502) points x Z in {1,2,p-1,2^255-20,a0,19}, and with limbs left unreduced by one Add/Sub. non-trivial = decodable string or Pack case. (The X25519 conversion's use of decoding is C12.)",
+			Assume: append(trusted, "field Contract/Expand as decided by C18"),
+		},
+		{
+			ID:    "C16",
+			Units: []Unit{{Pkg: "internal/ge25519", Job: "C16", Quick: []string{"default", "noasm", "force32bit", "appengine"}, Thorough: allCfg}},
+			Rule:  "E1 enumeration per backend (assembly / reference selector, unsafe / subtle conditional move, both limb layouts): selector on its complete finite domain 32 rows x 17 digits (-8..8) == niels form of [b*256^row]B (validates all 256 table entries); the 32 sliding-table entries; Basepoint, d, 2d, sqrt(-1); fixed base on the nibble-pattern alphabet NIB (every digit value at every position, carry runs) + specials, through Expand (reduced callers) and ExpandRaw of the clamped value (X25519 caller) == Encode([s]B) of the model; double base on P in {B,-B,A(a0),A(a1),T_1..T_7,B+T_4,A(a0)+T_7,identity} (quick 5) x s1 in W5 (d*2^i, d odd < 32; runs of ones at offsets 0/1/124/251; 0,1,L-1,L-2) x s2 in {0,1,a0}, and P in {B,A(a0)} x s1 in {0,1,a0} x s2 in W7 (d odd < 128), points supplied through UnpackVartime / UnpackNegativeVartime alternately == [s1]P+[s2]B computed by the model through known discrete logs.",
+			Assume: append(trusted, "field Contract as decided by C18; scalar Expand as decided by C19"),
+		},
 		// NEXT-SPEC
 		{
 			ID: "C04",
